@@ -72,6 +72,7 @@ type knownPred struct {
 // PathState is reset for every path.
 type PathState struct {
 	pc         []*Term
+	bounds     map[boundKey]boundRec // strongest constant bound per term among pc (see addPC)
 	decisions  []Decision
 	prefix     []Decision
 	steps      int64
@@ -317,6 +318,33 @@ func (e *Engine) addPC(c *Term) {
 		return
 	}
 	e.learn(c, true)
+	// bound subsumption: of several lower (upper) bounds on the same term with constant limits only
+	// the strongest is kept among the assumptions (a loop `for i <= N` otherwise adds one literal
+	// per iteration and every query re-sends all of them)
+	if x, kind, lim, ok := boundOf(c); ok {
+		if e.p.bounds == nil {
+			e.p.bounds = map[boundKey]boundRec{}
+		}
+		k := boundKey{x, kind}
+		if old, has := e.p.bounds[k]; has && old.idx < len(e.p.pc) && e.p.pc[old.idx] == old.lit {
+			stronger := lim > old.lim // lower bounds: larger is stronger
+			if kind == 1 {
+				stronger = lim < old.lim
+			}
+			if stronger {
+				e.p.pc[old.idx] = c
+				e.p.bounds[k] = boundRec{old.idx, lim, c}
+			}
+			// (an equal or weaker bound is implied by the one already present)
+			if e.p.modelOK {
+				if v, ok := e.evalBool(c); !ok || !v {
+					e.p.modelOK = false
+				}
+			}
+			return
+		}
+		e.p.bounds[k] = boundRec{len(e.p.pc), lim, c}
+	}
 	e.p.pc = append(e.p.pc, c)
 	if e.p.modelOK {
 		if v, ok := e.evalBool(c); !ok || !v {
@@ -763,4 +791,77 @@ func (e *Engine) checkOK(ok *Term, what string) {
 	if !e.branch(ok) {
 		e.programPanic(what)
 	}
+}
+
+
+// ---- bound subsumption among path-condition literals ----
+
+type boundKey struct {
+	x    *Term
+	kind int // 0: x >=u lim, 1: x <=u lim
+}
+
+type boundRec struct {
+	idx int
+	lim uint64
+	lit *Term
+}
+
+// boundOf recognises unsigned comparisons of a term with a constant.
+func boundOf(c *Term) (x *Term, kind int, lim uint64, ok bool) {
+	neg := false
+	if c.op == OpNot {
+		neg = true
+		c = c.a[0]
+	}
+	if (c.op != OpUle && c.op != OpUlt) || len(c.a) != 2 {
+		return nil, 0, 0, false
+	}
+	l, r := c.a[0], c.a[1]
+	strict := c.op == OpUlt
+	max := ^uint64(0)
+	if l.w < 64 {
+		max = (uint64(1) << uint(l.w)) - 1
+	}
+	switch {
+	case l.IsConst() && !r.IsConst():
+		// l <(=) r : lower bound on r;  negated: r <(=) l : upper bound on r
+		if !neg {
+			if strict {
+				if l.val == max {
+					return nil, 0, 0, false
+				}
+				return r, 0, l.val + 1, true
+			}
+			return r, 0, l.val, true
+		}
+		// not(l < r) == r <= l ; not(l <= r) == r < l
+		if strict {
+			return r, 1, l.val, true
+		}
+		if l.val == 0 {
+			return nil, 0, 0, false
+		}
+		return r, 1, l.val - 1, true
+	case r.IsConst() && !l.IsConst():
+		// l <(=) r : upper bound on l; negated: lower bound
+		if !neg {
+			if strict {
+				if r.val == 0 {
+					return nil, 0, 0, false
+				}
+				return l, 1, r.val - 1, true
+			}
+			return l, 1, r.val, true
+		}
+		// not(l < r) == l >= r ; not(l <= r) == l > r
+		if strict {
+			return l, 0, r.val, true
+		}
+		if r.val == max {
+			return nil, 0, 0, false
+		}
+		return l, 0, r.val + 1, true
+	}
+	return nil, 0, 0, false
 }
